@@ -256,4 +256,129 @@ class Rowwise(Component):
         ctx.label("empty-candset", len(C) == 0)
 
 
-COMPONENTS = [Tables(), Rowwise()]
+@st.composite
+def large_missing_case(draw, tier):
+    big = tier == "thorough"
+    return {"seed": draw(st.integers(0, 2 ** 32 - 1)),
+            "nl": draw(st.integers(60, 420 if big else 260)),
+            "nr": draw(st.integers(60, 420 if big else 260)),
+            "pl": draw(st.sampled_from([0, 5, 30, 60, 100])),
+            "pr": draw(st.sampled_from([0, 5, 30, 60, 100])),
+            "entry": draw(st.sampled_from(["JACCARD", "OVERLAP", "EDIT_DISTANCE",
+                                           "OVERLAP_COEFFICIENT", "size", "overlap", "prefix"])),
+            "score": draw(st.booleans()), "attrs": draw(st.booleans()),
+            "n_jobs": draw(st.sampled_from([1, 1, 4, 16]))}
+
+
+class LargeMissing(Component):
+    """Tables of 60-420 rows with 0-100 % missing values per side (tens of thousands of
+    missing-value pairs): with allow_missing=True every such pair occurs exactly once with a
+    NaN score, and the present part equals the allow_missing=False result."""
+    name = "large"
+    kind = "hyp"
+    rule = ">=10 000 pairs with a missing side, or a side with both missing and present values"
+
+    def examples(self, tier):
+        return 8 if tier == "quick" else 60
+
+    def strategy(self, tier):
+        return large_missing_case(tier)
+
+    def check(self, case, ctx):
+        import random
+
+        import pandas as pd
+        rnd = random.Random(case["seed"])
+        words = ["a", "b", "c", "d", "e", "f", "g", "h"]
+
+        def col(n, pct):
+            out = []
+            for _ in range(n):
+                if rnd.randrange(100) < pct:
+                    out.append(None if rnd.random() < 0.5 else float("nan"))
+                else:
+                    out.append(" ".join(rnd.sample(words, rnd.randint(1, 4))))
+            return out
+
+        lv, rv = col(case["nl"], case["pl"]), col(case["nr"], case["pr"])
+        L = pd.DataFrame({"id": list(range(case["nl"])), "v": pd.Series(lv, dtype=object),
+                          "x": [i % 5 for i in range(case["nl"])]})
+        R = pd.DataFrame({"v": pd.Series(rv, dtype=object),
+                          "id": [10000 + i for i in range(case["nr"])]})
+        e = case["entry"]
+        la = ["x"] if case["attrs"] else None
+        nj = case["n_jobs"]
+
+        def call(am):
+            tok = mk_tok({"kind": "ws", "return_set": True})
+            qtok = mk_tok({"kind": "qgram", "q": 2, "padding": True, "return_set": False})
+            with calls.backend(nj):
+                if e == "EDIT_DISTANCE":
+                    return ctx.lib(ssj.edit_distance_join, L, R, "id", "id", "v", "v", 1, "<=",
+                                   am, la, None, "l_", "r_", case["score"], nj, False, qtok)
+                if e == "OVERLAP":
+                    return ctx.lib(ssj.overlap_join, L, R, "id", "id", "v", "v", tok, 2, ">=",
+                                   am, la, None, "l_", "r_", case["score"], nj, False)
+                if e in ("JACCARD", "OVERLAP_COEFFICIENT"):
+                    fn = ssj.jaccard_join if e == "JACCARD" else ssj.overlap_coefficient_join
+                    return ctx.lib(fn, L, R, "id", "id", "v", "v", tok, 0.8, ">=", True, am, la,
+                                   None, "l_", "r_", case["score"], nj, False)
+                if e == "overlap":
+                    f = ssj.OverlapFilter(tok, 3, ">=", am)
+                    return ctx.lib(f.filter_tables, L, R, "id", "id", "v", "v", la, None, "l_",
+                                   "r_", case["score"], nj, False)
+                f = (ssj.SizeFilter if e == "size" else ssj.PrefixFilter)(tok, "JACCARD", 0.9,
+                                                                           True, am)
+                return ctx.lib(f.filter_tables, L, R, "id", "id", "v", "v", la, None, "l_", "r_",
+                               nj, False)
+
+        A, B = call(False), call(True)
+        if A is None or B is None:
+            return
+        lm = set(i for i, v in enumerate(lv) if oracle.is_missing(v))
+        rm = set(10000 + j for j, v in enumerate(rv) if oracle.is_missing(v))
+        site = "entry=%s" % e
+        who = "%s on %dx%d rows with %d/%d missing values (seed %d, n_jobs=%d)" % (
+            e, case["nl"], case["nr"], len(lm), len(rm), case["seed"], nj)
+        bl, br = B["l_id"].tolist(), B["r_id"].tolist()
+        bpairs = collections.Counter(zip(bl, br))
+        nM = len(lm) * case["nr"] + len(rm) * (case["nl"] - len(lm))
+        seenM = 0
+        for (i, j), c in bpairs.items():
+            if i in lm or j in rm:
+                seenM += 1
+                if c != 1:
+                    ctx.violation(site + ",kind=missing-pair-count",
+                                  "%s allow_missing=True: pair (%r, %r) occurs %d times"
+                                  % (who, i, j, c))
+        if seenM != nM:
+            miss = [(i, j) for i in range(case["nl"]) for j in range(10000, 10000 + case["nr"])
+                    if (i in lm or j in rm) and bpairs[(i, j)] == 0][:3]
+            ctx.violation(site + ",kind=missing-pair-count",
+                          "%s allow_missing=True: %d of %d pairs with a missing side are in the "
+                          "output; e.g. %r occurs 0 times, expected exactly once"
+                          % (who, seenM, nM, miss))
+        for i, j in zip(A["l_id"].tolist(), A["r_id"].tolist()):
+            if i in lm or j in rm:
+                ctx.violation(site + ",kind=missing-row-with-allow_missing-false",
+                              "%s allow_missing=False returned (%r, %r)" % (who, i, j))
+        if "_sim_score" in B.columns:
+            for i, j, sc in zip(bl, br, B["_sim_score"].tolist()):
+                if (i in lm or j in rm) and not canon.is_na(sc):
+                    ctx.violation(site + ",kind=missing-pair-score",
+                                  "%s: missing pair (%r, %r) has score %r" % (who, i, j, sc))
+        ra = collections.Counter(r[1:] for r in canon.rows_of(A))
+        rb = collections.Counter(r[1:] for r, i, j in zip(canon.rows_of(B), bl, br)
+                                 if not (i in lm or j in rm))
+        if ra != rb:
+            ctx.violation(site + ",kind=present-part-changed",
+                          "%s: rows over present values differ between allow_missing False/True"
+                          % who)
+        if [canon.cv(v) for v in B["_id"].tolist()] != list(range(len(B))):
+            ctx.violation(site + ",kind=_id-not-0..n-1", "%s: _id column not 0..n-1" % who)
+        ctx.nontrivial(nM >= 10000 or 0 < len(lm) < case["nl"] or 0 < len(rm) < case["nr"])
+        ctx.label("large:" + e)
+        ctx.label("large:missing-pairs>=10000", nM >= 10000)
+
+
+COMPONENTS = [Tables(), Rowwise(), LargeMissing()]
